@@ -47,7 +47,9 @@ Record Inv (n : node) : Prop := {
       spent (root bk) t = true;
   i_nomarker : dur n KMarker = None;
   i_univ : forall id b, dur n (KBlock id) = Some (VBlock b) -> U b /\ hash_field b = id;
-  i_orph : forall o, In o (orphans n) -> U o
+  i_orph : forall o, In o (orphans n) -> U o;
+  (* at rest the in-memory system parameters are those stored in the current state *)
+  i_params : pmem n = sdb_root n
 }.
 
 (** ** Reads after each kind of unit *)
@@ -117,14 +119,15 @@ Lemma inv_frame n n' :
   (forall k, (forall r, k <> KStateMarker r) -> (forall i m, k <> KReceipts i m) -> dur n' k = dur n k) ->
   (forall r, has_state_marker (dur n) r = true -> has_state_marker (dur n') r = true) ->
   (forall i m, has_receipts (dur n) i m = true -> has_receipts (dur n') i m = true) ->
+  pmem n' = pmem n ->
   Inv n'.
 Proof.
-  intros I Hb Hs Ho Hf Hm Hr.
+  intros I Hb Hs Ho Hf Hm Hr Hp.
   assert (Hk : forall id, dur n' (KBlock id) = dur n (KBlock id)) by (intros; apply Hf; intros; discriminate).
   assert (Hh : forall k, dur n' (KHeight k) = dur n (KHeight k)) by (intros; apply Hf; intros; discriminate).
   assert (Ht : forall t, dur n' (KTx t) = dur n (KTx t)) by (intros; apply Hf; intros; discriminate).
   assert (Hmb : forall k, mainb (dur n') k = mainb (dur n) k) by (intros; apply mainb_ext; auto).
-  destruct I. constructor; rewrite ?Hb, ?Hs, ?Ho; auto.
+  destruct I. constructor; rewrite ?Hb, ?Hs, ?Ho, ?Hp; auto.
   - unfold get_latest. rewrite Hf by (intros; discriminate). auto.
   - rewrite Hmb. auto.
   - rewrite Hmb. auto.
@@ -151,7 +154,8 @@ Lemma execute_block_frame n b n' :
   (forall i m, has_receipts (dur n') i m =
      (match txs b with [] => false | _ => (hash_field b =? i) && (no b =? m) end) || has_receipts (dur n) i m).
 Proof.
-  unfold execute_block. destruct (exec_ok apply (sdb_root n) b) eqn:E; try discriminate.
+  unfold execute_block. destruct (pmem n =? sdb_root n); [|discriminate].
+  destruct (exec_ok apply (sdb_root n) b) eqn:E; try discriminate.
   intros H. inversion H; subst; clear H. simpl.
   rewrite !emit_ne_dur. simpl.
   match goal with |- context [emit_ne ?n ?u] => destruct (emit_ne_fields n u) as (F1 & F2 & F3 & F4 & F5 & F6) end.
@@ -162,6 +166,17 @@ Proof.
   - intros r. unfold has_state_marker. rewrite receipts_unit_frame by (intros; discriminate).
     apply state_unit_marker.
   - intros i m. rewrite receipts_unit_has. f_equal.
+Qed.
+
+Lemma execute_block_pmem n b n' :
+  execute_block apply n b = Some n' -> pmem n = sdb_root n /\ pmem n' = root b.
+Proof.
+  unfold execute_block. destruct (pmem n =? sdb_root n) eqn:E; [|discriminate].
+  destruct (exec_ok apply (sdb_root n) b); [|discriminate].
+  intros H. inversion H; subst; clear H. simpl.
+  match goal with |- context [emit_ne ?n ?u] => destruct (emit_ne_fields n u) as (F1 & F2 & F3 & F4 & F5 & F6) end.
+  split; [apply N.eqb_eq; exact E|].
+  unfold emit_ne. destruct (u_ops (receipts_unit b)); reflexivity.
 Qed.
 
 (** connectToChain's transaction *)
@@ -220,10 +235,7 @@ Proof.
   destruct (execute_block apply n b) as [n1|] eqn:Ex; try discriminate.
   inversion Hc; subst n'; clear Hc.
   destruct (execute_block_frame _ _ _ Ex) as (Hok & Fb & Fs & Fo & Fbad & Flib & Ff & Fm & Fr).
-  assert (I1 : Inv (set_sdb n1 (sdb_root n))).
-  { eapply inv_frame; eauto; simpl; auto.
-    - intros r H. rewrite Fm, H. apply orb_true_r.
-    - intros i m H. rewrite Fr, H. apply orb_true_r. }
+  destruct (execute_block_pmem _ _ _ Ex) as (_ & Fp).
   unfold exec_ok in Hok. rewrite (i_sdb _ I) in Hok.
   destruct (apply (root (best n)) b) as [r'|] eqn:Eap; try discriminate.
   apply N.eqb_eq in Hok. subst r'.
@@ -308,6 +320,7 @@ Proof.
     + intros H. inversion H; subst. apply N.eqb_eq in E. auto.
     + unfold d1. rewrite Ff by (intros; discriminate). apply (i_univ _ I).
   - rewrite Fo. apply (i_orph _ I).
+  - rewrite Fp, Fs. reflexivity.
 Qed.
 
 (** A step that only stores further blocks (never changing a stored one), state markers and
@@ -321,9 +334,10 @@ Lemma inv_frame2 n n' :
   (forall id x, dur n' (KBlock id) = Some (VBlock x) -> U x /\ hash_field x = id) ->
   (forall r, has_state_marker (dur n) r = true -> has_state_marker (dur n') r = true) ->
   (forall i m, has_receipts (dur n) i m = true -> has_receipts (dur n') i m = true) ->
+  pmem n' = pmem n ->
   Inv n'.
 Proof.
-  intros I Hb Hs Ho Hf GB HU Hm Hr.
+  intros I Hb Hs Ho Hf GB HU Hm Hr Hp.
   assert (Hh : forall k, dur n' (KHeight k) = dur n (KHeight k)) by (intros; apply Hf; intros; discriminate).
   assert (Ht : forall t, dur n' (KTx t) = dur n (KTx t)) by (intros; apply Hf; intros; discriminate).
   assert (Mold : forall k x, mainb (dur n) k = Some x -> mainb (dur n') k = Some x).
@@ -346,6 +360,7 @@ Proof.
     exists b. split; auto.
   - intros j k bj bk t Hjk Hk Hj Hk2 Hin. eapply (i_spent _ I j k); eauto. apply Mchar; auto. lia.
   - rewrite Hf by (intros; discriminate). apply (i_nomarker _ I).
+  - rewrite Hp. apply (i_params _ I).
 Qed.
 
 Lemma store_unit_reads d b k :
